@@ -450,7 +450,10 @@ def matchOperate (sel : Sel) (timeout now seq frameId : Nat) (objects : List Nat
   else if now - sel.time > timeout then some 1
   else none
 
-/-- the four control functions; outer `none` = panic (`unwrap` on `WriteError`) -/
+/-- the four control functions.  The outer `Option` is kept for the callers' plumbing (`none` = panic);
+    since `handle_operate` keeps its `Result<CommandStatus, WriteError>` like `handle_select` /
+    `handle_direct_operate` (D1 repaired) no path returns `none`: an echo that does not fit the
+    solicited buffer is truncated for all three functions (`r.overflow`; D13) -/
 def handleControls (a : Acc) (func seq frameId : Nat) (hs : List ObjHdr) (raw : List Nat) : Option (Acc × Option Resp) :=
   if !(hs.all isControlHdr) then
     some (a, if func = 6 then none else some (emptySolicited seq iin2ParamError))
@@ -472,13 +475,12 @@ def handleControls (a : Acc) (func seq frameId : Nat) (hs : List ObjHdr) (raw : 
       | some sel => matchOperate sel a.1.cfg.stimeout a.1.now seq frameId raw
     match verdict with
     | some st =>
+      -- `respond_with_status(..).map(|_| status)`: `Err` when the echo overflows
       let r := ctlAll none st none hs { acc := a, cap := cap }
-      if r.overflow then none else
-      some (finish r (if st = 4 then iin2ParamError else 0))
+      some (finish r (if !r.overflow ∧ st = 4 then iin2ParamError else 0))
     | none =>
       let r := ctlAll (some .sbo) 0 a.1.cfg.maxctl hs { acc := a, cap := cap }
-      if r.overflow then none else
-      some (finish r (if r.status = 4 then iin2ParamError else 0))
+      some (finish r (if !r.overflow ∧ r.status = 4 then iin2ParamError else 0))
   else if func = 5 then
     let r := ctlAll (some .dop) 0 a.1.cfg.maxctl hs { acc := a, cap := cap }
     some (finish r (if !r.overflow ∧ r.status = 4 then iin2ParamError else 0))
